@@ -330,12 +330,57 @@ impl Blockchain {
                 // behavior. we have the comparison here to separate expected from
                 // unexpected / edge-case issues around block receipt.
             } else {
-                // this is not our first block and it connects to nothing the node holds (block 503
-                // arriving before block 453, say). it takes no block out of the longest-chain index: the
-                // index, the on-chain flags of the stored blocks, the ledger and the wallet only ever move
-                // together, through a reorganisation that unwinds and winds. (blocks above this one used to
-                // be struck off the index here, without any unwinding.) whether the segment it belongs to
-                // takes the tip is for the fork choice below
+                // if this not our first block, handle edge-case around receiving
+                // block 503 before block 453 when block 453 is our expected proper
+                // next block and we are getting blocks out-of-order because of
+                // connection or network issues.
+                if latest_block_hash != [0; 32]
+                    && latest_block_hash == self.get_latest_block_hash()
+                    && (block_id
+                        > self
+                            .get_latest_block_id()
+                            .saturating_sub(self.genesis_period))
+                    // a chain that already holds a block at this height is not waiting for this block
+                    && self
+                        .blockring
+                        .get_longest_chain_block_hash_at_block_id(block_id)
+                        .is_none()
+                {
+                    info!("blocks received out-of-order issue. handling edge case...");
+
+                    let disconnected_block_id = self.get_latest_block_id();
+                    debug!("disconnected id : {:?}", disconnected_block_id);
+                    debug!(
+                        "disconnecting blocks from : {:?} to : {:?}",
+                        block_id + 1,
+                        disconnected_block_id
+                    );
+
+                    for i in block_id.saturating_add(1)..=disconnected_block_id {
+                        if let Some(disconnected_block_hash) =
+                            self.blockring.get_longest_chain_block_hash_at_block_id(i)
+                        {
+                            if disconnected_block_hash != [0; 32] {
+                                self.blockring.on_chain_reorganization(
+                                    i,
+                                    disconnected_block_hash,
+                                    false,
+                                );
+                                trace!("checking block id : {:?}", i);
+                                let disconnected_block =
+                                    self.get_mut_block(&disconnected_block_hash);
+                                if let Some(disconnected_block) = disconnected_block {
+                                    trace!("in longest chain set to false");
+                                    disconnected_block.in_longest_chain = false;
+                                }
+                            }
+                        }
+                    }
+
+                    // new_chain.clear();
+                    // new_chain.push(block_hash);
+                    am_i_the_longest_chain = false;
+                }
             }
             old_chain =
                 self.calculate_old_chain_upto_length(latest_block_hash, new_chain.len() as BlockId);
